@@ -3,6 +3,7 @@ package checks
 import (
 	"encoding/json"
 	"fmt"
+	"github.com/vektah/gqlparser/v2/gqlerror"
 	"github.com/vektah/gqlparser/v2/parser"
 	"github.com/vektah/gqlparser/v2/validator"
 	"github.com/vektah/gqlparser/v2/validator/rules"
@@ -250,6 +251,8 @@ var handLinkDocs = []string{
 	`query($v: Int!, $w: [Int]) { lo(os: {r: $v, b: $w}) l2: lo(oo: {inner: {r: $v, b: [$v]}}) }`,
 	// a variable used only by a directive of a fragment definition, reached through another fragment
 	`query B($u: Int) { ...G } fragment G on Query { a { ...F } } fragment F on A @fd(x: $u) { x }`,
+	// variables used by directives on the operation itself and on its variable definitions
+	`query Q($v: Int, $b: Boolean!) @opd(x: $v, b: $b) { f(i: $v, nn: 1) s @include(if: $b) }`, `mutation M($b: Boolean!) @opd(b: $b) { m @skip(if: $b) }`,
 	// variables where no type guides the walk: inside lists and objects given to a custom scalar
 	`query($v: Int, $w: String) { f(i: $v, nn: 1) e1: any(x: [$v]) e2: any(x: {ids: [$v, [$w]]}) e3: any(x: [[$v], {k: $w}]) e4: any(x: $w) }`,
 	`query($v: Int) { f(i: $v, nn: 1) ...F } fragment F on Query { any(x: [1, [$v]]) }`,
@@ -309,6 +312,35 @@ func checkC09(c *core.Ctx) {
 				continue
 			}
 			tree, facts := projectWithLinks(schema, o.Doc)
+			if id%5 == 4 {
+				// the same document as a program would build it: the operation kind of a query left at its zero
+				// value (the library documents "" as query); validated afresh, it must carry the same links
+				if d3, err := parser.ParseQuery(&ast.Source{Input: text, Name: "q.graphql"}); err == nil {
+					zeroed := false
+					for _, op := range d3.Operations {
+						if op.Operation == ast.Query {
+							op.Operation = ""
+							zeroed = true
+						}
+					}
+					if zeroed {
+						var errs3 gqlerror.List
+						func() {
+							defer guard("validator.Validate (operation kind unset)", text)()
+							errs3 = validator.Validate(schema, d3)
+						}()
+						if len(errs3) == 0 {
+							for _, op := range d3.Operations {
+								if op.Operation == "" {
+									op.Operation = ast.Query // (the projection names the kind)
+								}
+							}
+							tree, facts = projectWithLinks(schema, d3)
+							c.AddExtraInt("documents_with_operation_kind_unset", 1)
+						}
+					}
+				}
+			}
 			id++
 			b, _ := json.Marshal(map[string]any{"id": id, "doc": gtNorm(tree), "links": facts})
 			lines = append(lines, b)
